@@ -3,8 +3,8 @@ MUTANTS = [
     # ---- C11 (none of these touch the two `values[1] - values[0]` lines that the proposed repair rewrites;
     #      reverting the repair is the pinned tree itself, which the check reports)
     dict(id="c11-peak-nonstrict", prop="C11", file=F,
-         old="peak_indices = np.where(diff[1:] * diff[:-1] < 0)[0]",
-         new="peak_indices = np.where(diff[1:] * diff[:-1] <= 0)[0]",
+         old="peak_indices = np.where(np.sign(diff[1:]) * np.sign(diff[:-1]) < 0)[0]",
+         new="peak_indices = np.where(np.sign(diff[1:]) * np.sign(diff[:-1]) <= 0)[0]",
          why="strict -> non-strict sign test of successive differences (index 0 reported twice)"),
     dict(id="c11-last-index", prop="C11", file=F,
          old="peak_indices = np.insert(peak_indices, len(peak_indices), len(values) - 1)",
@@ -61,8 +61,8 @@ MUTANTS += [
              "    non_zero_indices = np.where(diff_values != 0)[0]\n",
          why="window > 5000 samples: plateau compression in blocks of 5000 keeps every block's first sample (a plateau across a seam is split) - audit S3"),
     dict(id="c11-w-peaks-seam-20000", prop="C11", file=F,
-         old="    peak_indices = np.where(diff[1:] * diff[:-1] < 0)[0]",
-         new="    prod = diff[1:] * diff[:-1]\n    if len(values) > 20000:\n        prod[20000::20000] = 1.0  # seam element left to the next block\n"
+         old="    peak_indices = np.where(np.sign(diff[1:]) * np.sign(diff[:-1]) < 0)[0]",
+         new="    prod = np.sign(diff[1:]) * np.sign(diff[:-1])\n    if len(values) > 20000:\n        prod[20000::20000] = 1.0  # seam element left to the next block\n"
              "    peak_indices = np.where(prod < 0)[0]",
          why="window > 20000 cleaned samples: blocked sign test never evaluates the element at a block seam (turning point lost there)"),
     dict(id="c11-w-ncyc-start-70000", prop="C11", file=F,
@@ -126,4 +126,11 @@ MUTANTS += [
              "        return np.cumsum(steps)\n    return np.interp(np.arange(len(values)), indys, n_cycs)",
          why="behaviour-preserving w.r.t. the statement: above 10000 samples the counter is a staircase (right values at the reported peaks, "
              "non-decreasing) instead of a ramp (must not be flagged)"),
+]
+MUTANTS += [
+    dict(id="c11-revert-85207ee-sign-product", prop="C11", file=F,
+         old="    peak_indices = np.where(np.sign(diff[1:]) * np.sign(diff[:-1]) < 0)[0]",
+         new="    peak_indices = np.where(diff[1:] * diff[:-1] < 0)[0]",
+         why="reverts fix 85207ee (C11-F2): the product of two successive differences below ~1e-154 underflows to zero and the turning point "
+             "is missed - get_peak_array_indices([0, 1e-170, 0, 1e-170]) gives [0, 3]; caught by clause extreme-magnitudes"),
 ]
